@@ -1167,7 +1167,7 @@ def generate(rng, tier, scale=1):
     quick = tier == "quick"
     maxlen = 7 if quick else 11
     big = not quick
-    n = (6000 if quick else 110000) * scale
+    n = (6000 if quick else 100000) * scale
     cases = []
     if scale == 1:
         cases += malformed(rng)
